@@ -723,6 +723,9 @@ func (ex *Exec) runTop(fn *ssa.Function) {
 			st.ghost[name] = ex.freshGhost(st, name, sort)
 		}
 	}
+	if _, ok := st.ghost["atomic_loads"]; !ok {
+		st.ghost["atomic_loads"] = VInt{ex.decls.fresh("gv_atomic_loads", SInt)}
+	}
 	if ex.rel != nil {
 		ex.rel.setup(ex, st, f)
 	}
